@@ -89,6 +89,8 @@ pub struct Probe {
     pub refused: Vec<String>,
     pub single_mmap: bool,
     pub link: std::collections::BTreeMap<String, LinkRule>,
+    /// the same for `IOSQE_IO_HARDLINK` chains (which survive completion errors but not every failure)
+    pub hard: std::collections::BTreeMap<String, LinkRule>,
     pub unsupported_ops: Vec<String>,
 }
 
@@ -106,6 +108,9 @@ impl Probe {
     pub fn rule(&self, kind: &str) -> LinkRule {
         self.link.get(kind).copied().unwrap_or(LinkRule::Unknown)
     }
+    pub fn hard_rule(&self, kind: &str) -> LinkRule {
+        self.hard.get(kind).copied().unwrap_or(LinkRule::Unknown)
+    }
     pub fn cfgs(&self, entries: u32) -> Vec<RingCfg> {
         self.accepted.iter().map(|&b| RingCfg::from_bits(entries, b)).collect()
     }
@@ -122,7 +127,7 @@ pub fn cfg_strategy() -> impl Strategy<Value = RingCfg> {
 
 fn run_probe() -> Probe {
     sys::install_alarm_handler();
-    let mut p = Probe { available: false, setup_error: None, accepted: vec![], refused: vec![], single_mmap: false, link: Default::default(), unsupported_ops: vec![] };
+    let mut p = Probe { available: false, setup_error: None, accepted: vec![], refused: vec![], single_mmap: false, link: Default::default(), hard: Default::default(), unsupported_ops: vec![] };
     for b in 0u8..16 {
         let cfg = RingCfg::from_bits(4, b);
         match setup_io_uring(4, cfg.flags(), 0, 1) {
@@ -221,19 +226,21 @@ fn probe_links(p: &mut Probe) {
         let mut ud = 0x5000u64;
         // per kind: were all heads "opcode unknown to this kernel" answers?
         let mut all_unsup: std::collections::BTreeMap<&str, bool> = Default::default();
-        for (kind, why, mut sqe) in variants {
+        for (kind, why, sqe0) in variants {
+          for hard in [false, true] {
+            let mut sqe = sqe0;
             ud += 2;
-            sqe.flags |= sys::SQE_IO_LINK;
+            sqe.flags |= if hard { sys::SQE_IO_HARDLINK } else { sys::SQE_IO_LINK };
             sqe.user_data = ud;
             let nop = RawSqe { opcode: sys::OP_NOP, user_data: ud + 1, ..base };
             let key = if why == "short" { "short-rw".to_string() } else { kind.to_string() };
             let Ok(cq) = s.run(vec![Sqe::Raw(sqe), Sqe::Raw(nop)]) else {
-                p.link.insert(key, LinkRule::Unknown);
+                if hard { p.hard.insert(key, LinkRule::Unknown); } else { p.link.insert(key, LinkRule::Unknown); }
                 continue;
             };
             let head = cq.iter().find(|c| c.0 == ud).map(|c| c.1);
             let tail = cq.iter().find(|c| c.0 == ud + 1).map(|c| c.1);
-            if why != "short" {
+            if why != "short" && !hard {
                 let unsup = matches!(head, Some(h) if h == -libc::EINVAL || h == -libc::EOPNOTSUPP);
                 let e = all_unsup.entry(kind).or_insert(true);
                 *e = *e && unsup;
@@ -247,12 +254,14 @@ fn probe_links(p: &mut Probe) {
                 (true, Some(0)) => LinkRule::Continues,
                 _ => LinkRule::Unknown,
             };
-            let merged = match p.link.get(&key) {
+            let table = if hard { &mut p.hard } else { &mut p.link };
+            let merged = match table.get(&key) {
                 None => this,
                 Some(&prev) if prev == this => this,
                 Some(_) => LinkRule::Unknown,
             };
-            p.link.insert(key, merged);
+            table.insert(key, merged);
+          }
         }
         for (k, v) in all_unsup {
             if v {
